@@ -518,6 +518,10 @@ def check_compiled(p, item):
                 return
             f = [x for x in m.functions if x.name == case["fname"]][0]
             params = [c05.tyname(a.ty, target) for a in f.arguments]
+            if len(params) > len(c05.RV_ARGREGS):
+                # the emulator harness passes arguments in registers only (as c05.prepare does)
+                p.count("compiled_skip_more_than_6_parameters")
+                return
             ret = c05.tyname(f.return_ty, target) if isinstance(f, ir.Function) else None
             ext = c05.ext_signatures(m, target)
             globs = [(v.name, v.amount) for v in m.variables]
